@@ -131,6 +131,10 @@ class Ctx:
         self._libcache = {}
         kf = VERIF / "known_findings.json"
         self.known = json.loads(kf.read_text()) if kf.exists() else {"findings": [], "fixed": []}
+        for p in sorted((VERIF / "known_findings.d").glob("*.json")):
+            extra = json.loads(p.read_text())
+            self.known.setdefault("findings", []).extend(extra.get("findings", []))
+            self.known.setdefault("fixed", []).extend(extra.get("fixed", []))
 
     # ---------------------------------------------------------------- misc
     def log(self, *a):
